@@ -230,6 +230,12 @@ CLI_FILES = {"open-close": b"open\nkeep\nclose\n", "parity": b"x\ny\nx\nx\nz\nx\
              "single": b"only\n", "single-marked": b"keep\n// DDBEGIN\ndrop\n// DDEND\n"}
 CLI_TESTS["single"] = "lambda d: b'nothing' not in d"
 CLI_TESTS["single-marked"] = "lambda d: b'keep' in d"
+# character atoms whose deletion joins the neighbours into a marker word: still a candidate like any other
+CLI_TESTS["joins-ddbegin"] = "lambda d: __import__('re').search(rb'DD.*BEGIN', d) is not None"
+CLI_FILES["joins-ddbegin"] = b"f(DD, BEGIN);\n"
+CLI_TESTS["joins-ddend"] = "lambda d: b'DD' in d and b'END' in d and d.index(b'DD') < d.index(b'END')"
+CLI_FILES["joins-ddend"] = b"DD xEND y\n"
+CLI_FLAGS = {"joins-ddbegin": ["--char"], "joins-ddend": ["--char"]}
 
 
 def cli_runs(ctx):
@@ -253,7 +259,7 @@ def cli_runs(ctx):
                 for mx in (None, 1, 2, 4):
                     tc = d / "tc.txt"
                     tc.write_bytes(CLI_FILES[tname])
-                    argv = [f"--repeat={rep}"] + ([f"--max={mx}"] if mx else []) + [f"c03_{tname.replace('-', '_')}.py", str(tc)]
+                    argv = CLI_FLAGS.get(tname, []) + [f"--repeat={rep}"] + ([f"--max={mx}"] if mx else []) + [f"c03_{tname.replace('-', '_')}.py", str(tc)]
                     case = dict(cli=True, argv=argv[:-1], test=tname, data=common.enc_bytes(CLI_FILES[tname]))
                     try:
                         with contextlib.redirect_stdout(io.StringIO()), contextlib.redirect_stderr(io.StringIO()):
@@ -265,6 +271,8 @@ def cli_runs(ctx):
                     ctx.bump("cli-runs")
                     final = tc.read_bytes()
                     lines = final.splitlines(keepends=True)
+                    if "--char" in argv:
+                        lines = [final[i:i + 1] for i in range(len(final))]
                     if tname == "single-marked":
                         lines = [l for l in lines if l == b"drop\n"]     # the region is the one line between the markers
                     if rc != 0 or not fn(final):
